@@ -187,7 +187,7 @@ fn rich_desc(id: u64) -> impl Strategy<Value = TrackDesc> {
             prop_oneof![5 => Just(0u8), 1 => Just(1u8)],
             proptest::collection::vec((prop_oneof![4 => Just(0u64), 1 => Just(1u64), 1 => Just(2u64)], prop_oneof![1 => Just(None), 6 => (0i32..12).prop_map(Some)], prop_oneof![1 => Just(None), 3 => (0i32..9).prop_map(Some)]), 0..5),
         )
-            .prop_map(move |(val, group, obs)| TrackDesc { id, val, group, poison: false, obs: obs.into_iter().filter(|(_, a, f)| a.is_some() || f.is_some()).collect() }),
+            .prop_map(move |(val, group, obs)| TrackDesc { id, val, group, poison: false, obs: obs.into_iter().filter(|(_, a, f)| a.is_some() || f.is_some()).collect(), reid: None }),
         1 => track_desc(id),
     ]
 }
